@@ -261,9 +261,14 @@ func (e *Eng) args(rank, vid int) (key, val []byte) {
 	if vid != VNil {
 		val = e.V.Bytes(vid)
 	}
+	if e.kbuf != nil && (len(key) > len(e.kbuf) || len(val) > len(e.vbuf)) {
+		// the caller moves to larger buffers (the old ones are checked one last time)
+		e.checkCallerBuffers()
+		e.kbuf = nil
+	}
 	if e.kbuf == nil {
-		e.kbuf = make([]byte, 64)
-		e.vbuf = make([]byte, 1<<18)
+		e.kbuf = make([]byte, max(64, 2*len(key)))
+		e.vbuf = make([]byte, max(1<<18, 2*len(val)))
 		e.kshadow = append([]byte(nil), e.kbuf...)
 		e.vshadow = append([]byte(nil), e.vbuf...)
 	}
